@@ -66,7 +66,7 @@ func TestCheck(t *testing.T) {
 	run := vkit.New("C13", "main", "exploration")
 	run.SetRule("each evaluation is one (message, announced key, completing chain, partial shape, cache order) tuple: the message comes from the C05 corpus (valid messages of every step plus 36 corruption operators); it is stripped with the production ToPartialGMessage (or an attacker-shaped partial), validated with PartiallyValidateMessage, completed with the production completion step and validated with FullyValidateMessage; the verdict is compared with ValidateMessage of the completed message on the same participant (both cache orders) and on a fresh participant. distinct non-trivial = distinct (corruption, phase, key kind, chain kind, shape, order, outcome) combinations")
 	run.Assume("stand-in signatures (vsig)", "completion uses pmsg's production inferJustificationVoteValue through a verif-tagged accessor; chain lookup by key is replaced by the harness choosing the completing chain (that is the adversarial degree of freedom)")
-	n := run.N(300, 30000)
+	n := run.N(1500, 30000)
 	var mu sync.Mutex
 	ctx := context.Background()
 	body := func(i int) {
@@ -134,6 +134,10 @@ func TestCheck(t *testing.T) {
 			for rep := 0; rep < 3; rep++ {
 				// announced key
 				keyKind := rng.Intn(5)
+				consistentBias := rng.Intn(2) == 0 // half of the tuples announce the key of the completing chain
+				if consistentBias {
+					keyKind = 0
+				}
 				var K gpbft.ECChainKey
 				switch keyKind {
 				case 0:
@@ -152,6 +156,9 @@ func TestCheck(t *testing.T) {
 				}
 				// completing chain
 				chainKind := rng.Intn(6)
+				if consistentBias && rng.Intn(4) != 0 {
+					chainKind = 0
+				}
 				var C *gpbft.ECChain
 				switch chainKind {
 				case 0:
